@@ -492,6 +492,7 @@ fn gen_for_flavour(w: &mut Rng, flavour: &str) -> ModuleSet {
 fn subsets_plan(seed: u64, flavour: &str) -> Value {
     let root = Rng::new(seed);
     let mut w = root.fork("workload");
+    let mut bmid = root.fork("builder-mid");
     let set = gen_for_flavour(&mut w, flavour);
     let n = set.modules.len();
     let backend = BackendSel::random(&mut w);
@@ -518,7 +519,7 @@ fn subsets_plan(seed: u64, flavour: &str) -> Value {
                 1 => Form::Files,
                 _ => Form::Literals,
             },
-            bp: BuilderPath { output_first: w.chance(1, 2), batch_paths: w.chance(1, 2), swap_backend: w.chance(1, 6), swap_late: false, legacy_path: false },
+            bp: BuilderPath { output_first: w.chance(1, 2), batch_paths: w.chance(1, 2), swap_backend: w.chance(1, 6), swap_late: false, legacy_path: false, output_mid: bmid.chance(1, 5) },
         });
     }
     // and the full set once, in a random order
@@ -592,6 +593,21 @@ fn associated_of(p: &SubPlan, refs: &SubRef, m: &gen::Module) -> BTreeSet<(Strin
 }
 
 /// Oracle C on one module's block of one compilation
+/// every `super :: <module> :: <Ident>` in a normalised token text
+fn qualified_paths(text: &str) -> Vec<(String, String)> {
+    let is_ident = |t: &str| t.chars().next().is_some_and(|c| c.is_alphabetic() || c == '_') && t.chars().all(|c| c.is_alphanumeric() || c == '_');
+    let t: Vec<&str> = text.split_whitespace().collect();
+    let mut out = vec![];
+    for i in 0..t.len().saturating_sub(4) {
+        if t[i] == "super" && t[i + 1] == "::" && t[i + 3] == "::" && is_ident(t[i + 2]) && is_ident(t[i + 4]) {
+            out.push((t[i + 2].to_string(), t[i + 4].to_string()));
+        }
+    }
+    out.sort();
+    out.dedup();
+    out
+}
+
 fn check_imports(out: &mut Outcome, p: &SubPlan, refs: &SubRef, mi: usize, block: &ModBlock, ctx: &str) {
     let BackendSel::Rasn(cfg) = &p.backend else { return };
     let m = &p.set.modules[mi];
@@ -781,6 +797,33 @@ fn subsets_execute(p: &SubPlan, refs: &Value, root: &str) -> Outcome {
                 continue;
             }
         };
+        // ---- oracle E: a module-qualified path resolves to THAT module. Whatever made the compiler
+        // write `super::<m>::<T>` into an item (a qualified reference in the source, a member copied
+        // with COMPONENTS OF, a template instance), <m> must be a module that defines <T>. Judged
+        // when <m> is part of this compilation; `use` declarations are oracle C's business.
+        if rust && !p.flavour.starts_with("xmod") {
+            for b in &blocks {
+                for (key, text) in &b.items {
+                    for (m, ident) in qualified_paths(text) {
+                        let Some(target) = blocks.iter().find(|x| x.name == m) else { continue };
+                        out.count("qualified_paths_checked", 1);
+                        let defined = target.items.iter().any(|(k, _)| !k.starts_with("impl") && proj::key_ident(k) == ident);
+                        if !defined {
+                            out.violate(
+                                "qualified-path-resolves",
+                                format!(
+                                    "item `{key}` of block {} names super::{m}::{ident}, but block {m} defines no {ident}; compilation {ci} of modules {:?} ({:?}), backend {}",
+                                    b.name,
+                                    c.modules.iter().map(|i| p.set.modules[*i].name.clone()).collect::<Vec<_>>(),
+                                    c.form,
+                                    p.backend.short()
+                                ),
+                            );
+                        }
+                    }
+                }
+            }
+        }
         let present: BTreeSet<usize> = c.modules.iter().copied().collect();
         let dup = c.modules.len() != present.len();
         for mi in present {
